@@ -711,10 +711,15 @@ class CoreScenario(Scenario):
         body: the branch "could not be executed" in the words of condition()'s documentation, so a later
         branch may be selected (reading of "admissible" recorded in DESIGN.md, C12)."""
         a = self.a
-        group = [bid]
-        for cid, (n, e) in a.conds.items():
-            if e == bid:
-                group += [b["bid"] for b in n["branches"]]
+        group, todo = [], [bid]
+        while todo:  # the branch, nested blocks in it, and blocks inside the methods it calls (recursively)
+            x = todo.pop()
+            if x in group:
+                continue
+            group.append(x)
+            for cid, (n, e) in a.conds.items():
+                if e == x or e in a.tree_methods.get(x, []):
+                    todo += [b["bid"] for b in n["branches"]]
         for t in a.transactions:
             if self.inside(t, encl) or not self.run(t, obs):
                 continue
